@@ -98,6 +98,16 @@ func (p *Program) verifyFunc(fc *FuncContract) (u *Unit) {
 		args = append(args, v)
 		st.names[prm.Name()] = v
 	}
+	var binds []Value
+	for _, fv := range fn.FreeVars {
+		v := x.freshValue(fv.Type(), fv.Name())
+		binds = append(binds, v)
+		if _, isPtr := v.(Ptr); isPtr {
+			st.names["&"+fv.Name()] = v
+		} else {
+			st.names[fv.Name()] = v
+		}
+	}
 	fr := &frame{fn: fn, fc: fc, name: fc.Key, top: true}
 	entry := st.clone()
 	x.entry = &entry
@@ -170,7 +180,7 @@ func (p *Program) verifyFunc(fc *FuncContract) (u *Unit) {
 		u.Trusted = fc.Trusted
 		return u
 	}
-	out, res, ok := x.runFunc(fn, args, nil, st, true)
+	out, res, ok := x.runFunc(fn, args, binds, st, true)
 	u.Bounded = x.bounded
 	if !ok {
 		// no reachable return: postconditions hold vacuously; report a cover failure instead
